@@ -130,6 +130,27 @@ let run_leaf toks =
          let tbl = Hashtbl.create 64 in
          List.iter (fun (b, m) -> let k = Zr.to_int b in Hashtbl.replace tbl k ((b, m) :: (try Hashtbl.find tbl k with Not_found -> []))) cl;
          String.concat "" (List.map (fun k -> string_of_int k ^ ":" ^ pr (byte_val (Hashtbl.find tbl k) (Zr.of_int k)) ^ " ") keys) ^ "| " ^ pr i ^ " " ^ pr w)
+  | "ebig" :: log2 :: nseg :: rest ->
+      (* the model of EratBig (bucket lists, wheel 210): per segment the changed bytes, then the bucket lists *)
+      let rec triples = function p :: i :: w :: r -> ((z p, z i), z w) :: triples r | _ -> [] in
+      let lg = z log2 in
+      let size = 1 lsl (Zr.to_int lg) in
+      (match eb_store_all lg [] (triples rest) with
+       | None -> "oob-store"
+       | Some b ->
+         (match eb_run (nat_of_int (int_of_string nseg)) (nat_of_int ((List.length rest / 3 + 1) * (size + 2) + 100)) lg b with
+          | None -> "oob-or-fuel"
+          | Some (cls, b') ->
+            let seg cl =
+              let tbl = Hashtbl.create 64 in
+              List.iter (fun (bb, m) -> let k = Zr.to_int bb in Hashtbl.replace tbl k ((bb, m) :: (try Hashtbl.find tbl k with Not_found -> []))) cl;
+              let keys = List.sort_uniq compare (List.map (fun (bb, _) -> Zr.to_int bb) cl) in
+              String.concat "" (List.map (fun k -> string_of_int k ^ ":" ^ pr (byte_val (Hashtbl.find tbl k) (Zr.of_int k)) ^ " ") keys) ^ "| " in
+            let lists = List.mapi (fun k l ->
+                if l = [] then "" else
+                  let es = List.sort compare (List.map (fun ((sp, i), w) -> (Zr.to_int sp, Zr.to_int i, Zr.to_int w)) l) in
+                  " " ^ string_of_int k ^ ":" ^ String.concat ";" (List.map (fun (a, b, c) -> Printf.sprintf "%d,%d,%d" a b c) es)) b' in
+            String.concat "" (List.map seg cls) ^ "size=" ^ string_of_int (List.length b') ^ String.concat "" lists))
   | ["kernel"; l1; kb; a; b] ->
       (* the model kernel (segments of the geometry model, addSievingPrime, EratSmall cross-off over the extracted step table)
          on [a, b], a >= 7: number of surviving numbers in [a, b], their sum mod 2^61-1 and the first / last one.
